@@ -41,9 +41,10 @@ VARIABLES cfg,    \* [src: "get"|"post", types: [Names -> {"str","int","-"}]   (
           rq,     \* [method: "GET"|"POST", occ: [Names -> Forms], where: "query"|"form"]
           ctxk,   \* kind of the endpoint's result: "map" | "str" | "resp"
           pre,    \* names preset by the endpoint in a mapping context
+          preNone,\* those of them whose preset value is None (present in the mapping all the same)
           pc, prov, ctx
 
-vars == <<cfg, rq, ctxk, pre, pc, prov, ctx>>
+vars == <<cfg, rq, ctxk, pre, preNone, pc, prov, ctx>>
 
 Declared(c) == {n \in Names : c.types[n] # "-"}
 \* well-formed configurations: a name is required XOR defaulted; required names must have a source (the parameter
@@ -58,6 +59,7 @@ Init == /\ cfg \in {c \in [src : {"get", "post"}, types : [Names -> {"str", "int
         /\ ctxk \in {"map", "str", "resp"}
         /\ pre \in SUBSET Names
         /\ (ctxk # "map" => pre = {})
+        /\ preNone \in SUBSET pre
         /\ pc = "extract" /\ prov = [n \in Names |-> None] /\ ctx = [n \in Names |-> [k |-> "missing", v |-> ""]]
 
 \* does the middleware look where the request put its values?
@@ -67,13 +69,13 @@ Extract ==
     /\ pc = "extract"
     /\ prov' = [n \in Names |-> IF n \in Declared(cfg) /\ Looks(cfg, rq) THEN Extracted(rq.occ[n], cfg.types[n]) ELSE None]
     /\ pc' = "endpoint"
-    /\ UNCHANGED <<cfg, rq, ctxk, pre, ctx>>
+    /\ UNCHANGED <<cfg, rq, ctxk, pre, preNone, ctx>>
 
 Endpoint ==
     /\ pc = "endpoint"
-    /\ ctx' = [n \in Names |-> IF n \in pre THEN Preset(n) ELSE [k |-> "missing", v |-> ""]]
+    /\ ctx' = [n \in Names |-> IF n \in preNone THEN None ELSE IF n \in pre THEN Preset(n) ELSE [k |-> "missing", v |-> ""]]
     /\ pc' = IF ctxk = "resp" THEN "done" ELSE "process"       \* a Response from the endpoint skips the render phase
-    /\ UNCHANGED <<cfg, rq, ctxk, pre, prov>>
+    /\ UNCHANGED <<cfg, rq, ctxk, pre, preNone, prov>>
 
 \* process_render_context: only mappings are touched; a name already in the context is kept unless overwrite;
 \* the value is the one in scope (the parameter middleware's, if it declares the name - even when that value is None)
@@ -87,22 +89,23 @@ Process ==
                       ELSE IF n \in Declared(cfg) THEN prov[n]
                       ELSE Default(n)]
     /\ pc' = "done"
-    /\ UNCHANGED <<cfg, rq, ctxk, pre, prov>>
+    /\ UNCHANGED <<cfg, rq, ctxk, pre, preNone, prov>>
 
 Next == Extract \/ Endpoint \/ Process
 Spec == Init /\ [][Next]_vars
 
 (***************************** properties *********************************)
 \* the endpoint's own values survive unless overwrite was asked for
-PresetKept == (pc = "done" /\ ~cfg.overwrite) => \A n \in pre : ctx[n] = Preset(n)
+PresetVal(n) == IF n \in preNone THEN None ELSE Preset(n)
+PresetKept == (pc = "done" /\ ~cfg.overwrite) => \A n \in pre : ctx[n] = PresetVal(n)      \* a preset None is a preset value
 \* every declared context name is present in a mapping context afterwards
 Filled == (pc = "done" /\ ctxk = "map") => \A n \in cfg.req \cup cfg.defs : ctx[n].k # "missing"
 \* nothing but the declared names is ever written
-OnlyDeclared == pc = "done" => \A n \in Names \ (cfg.req \cup cfg.defs) : ctx[n] = (IF n \in pre THEN Preset(n) ELSE [k |-> "missing", v |-> ""])
+OnlyDeclared == pc = "done" => \A n \in Names \ (cfg.req \cup cfg.defs) : ctx[n] = (IF n \in pre THEN PresetVal(n) ELSE [k |-> "missing", v |-> ""])
 \* a value of the wrong type never reaches the application: int-typed names are ints or None
 Typed == \A n \in Names : cfg.types[n] = "int" => prov[n].k \in {"int", "none"}
 \* the middleware that reads the form sees nothing of the query and vice versa
 NoCrossTalk == (pc # "extract" /\ ~Looks(cfg, rq)) => \A n \in Names : prov[n] = None
 
-Emit == pc = "done" => PrintT(<<"EMIT", ToJson([cfg |-> cfg, rq |-> rq, ctxk |-> ctxk, pre |-> pre, prov |-> prov, ctx |-> ctx])>>)
+Emit == pc = "done" => PrintT(<<"EMIT", ToJson([cfg |-> cfg, rq |-> rq, ctxk |-> ctxk, pre |-> pre, preNone |-> preNone, prov |-> prov, ctx |-> ctx])>>)
 =============================================================================
